@@ -27,7 +27,7 @@ def classify_test(test: ast.AST, fn: ast.FunctionDef) -> str:
             return "context" if ok else "context?"
         ok = isinstance(test, ast.Compare) and isinstance(test.ops[0], ast.In) and len(test.ops) == 1
         return "context" if ok else "context?"
-    if "_NO_DEFAULT" in names:
+    if "_NO_DEFAULT" in names and (names & DEFAULT_LOCALS or "_default_for" in txt):
         ok = isinstance(test, ast.Compare) and isinstance(test.ops[0], ast.IsNot) and len(test.ops) == 1
         return "default" if ok else "default?"
     return "other"
@@ -50,7 +50,7 @@ def classify_result(body: List[ast.stmt]) -> str:
             return "config"
         if "context" in names:
             return "context"
-        if names & {"d", "default", "default_value"} or "_default_for" in ast.unparse(v):
+        if names & DEFAULT_LOCALS or "_default_for" in ast.unparse(v):
             return "default"
         if isinstance(v, ast.Constant):
             return f"const:{v.value!r}"
@@ -58,9 +58,16 @@ def classify_result(body: List[ast.stmt]) -> str:
     return "other"
 
 
+DEFAULT_LOCALS: set = set()
+
+
 def extract_chain(fn: ast.FunctionDef) -> List[Tuple[str, str]]:
     """Ordered (guard channel, result channel) pairs of a first-match function."""
     chain: List[Tuple[str, str]] = []
+    DEFAULT_LOCALS.clear()
+    for n in walk_no_nested(fn):
+        if isinstance(n, ast.Assign) and isinstance(n.value, ast.Call) and "_default_for" in ast.unparse(n.value.func):
+            DEFAULT_LOCALS.update(t.id for t in n.targets if isinstance(t, ast.Name))
 
     def walk(body: List[ast.stmt]) -> None:
         for st in body:
